@@ -117,10 +117,13 @@ class Dispatcher(InstructionGenerator):
 
             return instructions
 
+        # iterate fleets in sorted order: a vehicle in several fleets gets the instruction of
+        # the last fleet solved, and frozenset iteration order depends on string hashing
+        fleet_ids: Tuple[Optional[MembershipId], ...]
         if len(environment.fleet_ids) > 0:
-            fleet_ids = environment.fleet_ids
+            fleet_ids = tuple(sorted(environment.fleet_ids, key=lambda f: f or ""))
         else:
-            fleet_ids = frozenset([None])
+            fleet_ids = (None,)
 
         initial_instructions: Tuple[DispatchTripInstruction, ...] = tuple()
 
